@@ -1,4 +1,4 @@
-(* Properties_E2E.v — whole command lines, end to end.  On the scripted environment of Script.v with
+(* Properties_C01e.v — whole-line end-to-end theorems (input line in, exact output bytes out), composed from C02, C06, C07, C09, C10, C11: property C01 (one result code per line, in order) made concrete for three kinds of lines, and C07 (round trip) through the real line reader.  Proofs in Lemmas_E2E.v.
    always-ready io (both schedules empty), the event machine idle with an empty queue and no mutex, the
    per-phase results (C02 dispatch, C06 collection, C07 formatting and write-back, C09 forms, C10
    continuations, C11 flush units) chain into the observable behaviour of one complete line:
